@@ -7,7 +7,7 @@ cd "$wt" || exit 2
 git checkout -q -- . ; git clean -fdq; git apply "$patch" || { echo "patch does not apply"; exit 2; }
 res=""
 for p in $props; do
-  o=$(cd /verif && VERIF_DIR=$out ./bin/crngcheck check -property $p -repo "$wt" 2>&1)
+  o=$(cd /verif && VERIF_DIR=$out ${CRNG_BIN:-./bin/crngcheck} check -property $p -repo "$wt" 2>&1)
   if echo "$o" | grep -q "^VIOLATION"; then
     res="$res $p"
     [ -n "$VERBOSE" ] && echo "$o" | grep -B1 "^VIOLATION" | grep -v "^VIOLATION\|^--" | head -3 | cut -c1-260 | sed "s/^/   $p: /"
